@@ -20,7 +20,7 @@ from mido.ports import EchoPort, IOPort, MultiPort
 
 from .. import doubles
 from ..core import HarnessAbort
-from ..doubles import RecordingPort, msg_tag
+from ..doubles import DirectPort, RecordingPort, msg_tag
 from ..mon import lines, sched
 from . import c10
 
@@ -218,10 +218,12 @@ def run_sequence(ctx, seq, cfg, hook):
     log = []
     devmsgs = [dev_msg(i) for i in range(ndev)]
     arrivals = iter(range(100, 200))
-    if ptype == 'rec':
-        port = RecordingPort('r', log=log, dev=devmsgs, batch=batch, close_at=close_at,
-                             autoreset=autoreset, send_fail=send_fail)
+    if ptype in ('rec', 'direct'):
+        cls = RecordingPort if ptype == 'rec' else DirectPort
+        port = cls('r', log=log, dev=devmsgs, batch=batch, close_at=close_at,
+                   autoreset=autoreset, send_fail=send_fail)
         indev = port
+        ptype = 'rec'
     else:   # ioport over two doubles
         pin = RecordingPort('i', log=log, dev=devmsgs, batch=batch, close_at=close_at, label='in')
         pout = RecordingPort('o', log=log, autoreset=autoreset, send_fail=send_fail, label='out')
@@ -677,6 +679,76 @@ def multiport_selfclosing_member(ctx, hook):
     return n
 
 
+def multiport_failing_member(ctx, hook):
+    """One member's device read fails (OSError) during a polling round.  Whatever the round had
+    already taken out of the healthy members has been taken in by the MultiPort: it must still be
+    handed out by later calls, before or after close(), and nothing may be delivered twice."""
+    n = 0
+    saved = random.getstate()
+    try:
+        for seed in range(10):
+            for k in (1, 3):
+                for fails in ((1, 1), (1, 3), (2, 10 ** 6)):
+                    for via in ('poll', 'iter_pending', 'receive', 'close-then-iter'):
+                        for order in (0, 1):
+                            case = {'kind': 'multi-failing-member', 'seed': seed, 'messages': k, 'recv_fail': list(fails),
+                                    'via': via, 'order': order}
+                            random.seed(seed)
+                            good = EchoPort('good')
+                            sent = [dev_msg(i) for i in range(k)]
+                            for m in sent:
+                                good.send(m)
+                            bad = RecordingPort('bad', log=[], recv_fail=fails, label='bad')
+                            mp = MultiPort([good, bad] if order == 0 else [bad, good])
+                            got, errors = [], 0
+                            hook.arm({}, None, None)
+                            try:
+                                for attempt in range(60):
+                                    if len(got) >= k and attempt > k + 3:
+                                        break
+                                    try:
+                                        if via == 'poll':
+                                            m = mp.poll()
+                                            if m is not None:
+                                                got.append(m)
+                                        elif via == 'iter_pending':
+                                            for m in mp.iter_pending():
+                                                got.append(m)
+                                        elif via == 'receive':
+                                            if len(got) < k:
+                                                got.append(mp.receive())
+                                        else:
+                                            if errors and not mp.closed:
+                                                mp.close()
+                                            if mp.closed:
+                                                got.extend(mp)
+                                                break
+                                            m = mp.poll()
+                                            if m is not None:
+                                                got.append(m)
+                                    except OSError:
+                                        errors += 1
+                                left = list(good._messages)
+                                if via == 'close-then-iter':
+                                    # what the closed MultiPort never took in is still in the member
+                                    ok = got + left == sent
+                                else:
+                                    ok = got == sent and not left
+                                ctx.check('results == lifecycle model', ok, f'multi:failing-member-lost:{via}', case,
+                                          lambda: {'delivered': [tag_of(x) for x in got], 'left_in_member': len(left),
+                                                   'sent': k, 'read_errors': errors})
+                            except HarnessAbort as exc:
+                                ctx.check('blocking call bounded sleeps', False, 'multi:failing-member-blocked', case, str(exc))
+                            except Exception as exc:
+                                ctx.fail('results == lifecycle model', f'multi:failing-member:{type(exc).__name__}', case,
+                                         f'{type(exc).__name__}: {exc}')
+                            bad.closed = True
+                            n += 1
+    finally:
+        random.setstate(saved)
+    return n
+
+
 def multiport_cases(ctx, hook):
     n = 0
     for nmem in (0, 1, 2, 3):
@@ -880,6 +952,10 @@ def configs():
             for close_at in close_ats:
                 for autoreset, send_fail in ((False, None), (True, None), (True, 5)):
                     yield (ptype, ndev, batch, close_at, autoreset, send_fail)
+    # a port type that overrides send() instead of _send(), as the rtmidi backend's Output does
+    for close_at in (None, 2):
+        for autoreset, send_fail in ((False, None), (True, None), (True, 5)):
+            yield ('direct', 3, 1, close_at, autoreset, send_fail)
 
 
 def run(ctx):
@@ -929,6 +1005,10 @@ def run(ctx):
             k = multiport_selfclosing_member(ctx, hook)
             ctx.nontrivial(None, k)
             n += k
+            k = multiport_failing_member(ctx, hook)
+            ctx.nontrivial(None, k)
+            ctx.extra('multiport_failing_member_cases', k)
+            n += k
         if ctx.shard == 2 % ctx.nshards:
             k = long_idle_cases(ctx, hook)
             ctx.nontrivial(None, k)
@@ -974,6 +1054,8 @@ def replay(ctx, case):
             multiport_selfclosing_member(ctx, hook)
         elif k == 'echo-blocking':
             echo_blocking_cases(ctx, hook)
+        elif k == 'multi-failing-member':
+            multiport_failing_member(ctx, hook)
     finally:
         mido.ports.sleep = orig
     if case['kind'] == 'sched':
